@@ -123,6 +123,22 @@ def parse_callee(text):
     return c
 
 # ------------------------------------------------------------------ program
+def default_for_type(ty):
+    ty = ty.strip()
+    base = ty.split('<')[0].split('::')[-1]
+    if base == 'Option': return NONE()
+    if base in ('HashMap', 'BTreeMap'): return MapV(base)
+    if base in ('HashSet', 'BTreeSet'): return SetV(base)
+    if base in ('Vec', 'VecDeque'): return VecV()
+    if base == 'String': return ''
+    if base == 'bool': return False
+    if re.fullmatch(r'[iu](8|16|32|64|128|size)', base): return 0
+    if base in ('Mutex', 'RwLock', 'RefCell', 'Cell') and '<' in ty:
+        return Struct(base, [Cell(default_for_type(ty[ty.index('<') + 1:-1]))], None)
+    if base == 'Arc' and '<' in ty:
+        return ArcV(Cell(default_for_type(ty[ty.index('<') + 1:-1])))
+    return Opaque('default:' + ty)
+
 class Program:
     """All MIR bodies of the crates under test + type tables + native models."""
     def __init__(self, mir_files, ttables):
@@ -268,6 +284,17 @@ class Program:
         assert info and info[0] == 'named', printed
         names = [n for n, _ in info[1]]
         assert set(kw) == set(names), (printed, names, list(kw))
+        return Struct(full, [Cell(kw[n]) for n in names], names)
+
+    def mk_struct_lenient(self, printed, **kw):
+        """like mk_struct, but fields the harness does not know (added by a later change to the code) get the value
+        their type's Default would give, so a harness keeps driving a struct that grew a field"""
+        full, info = self.struct_fields(printed)
+        assert info and info[0] == 'named', printed
+        for n, ty in info[1]:
+            if n not in kw:
+                kw[n] = default_for_type(ty)
+        names = [n for n, _ in info[1]]
         return Struct(full, [Cell(kw[n]) for n in names], names)
 
     def mk_enum(self, printed, vname, *args):
